@@ -208,6 +208,46 @@ def fixVariablesCopy [Add R] [Mul R] [Zero R] [DecidableEq R] (m : CqmL R) (fixe
 
 end CqmL
 
+/-! ## the generic Python path on an array back-end (`views/quadratic.py: QuadraticViewsMixin.fix_variable(s)`)
+
+For `cyBQM` / `cyQM` the methods the mixin calls are index-level operations of the C++ model: `iter_neighborhood(v)` walks
+`adj[v]` in order, `add_linear(u, x)` adds to `linear_biases_[u]`, `get_linear`, the `offset` setter, `remove_variable`. -/
+
+namespace QMB
+
+/-- `fix_variable(v, value)`: `for u, bias in iter_neighborhood(v): add_linear(u, value*bias)` (a squared term adds to `v`'s own
+    bias), `offset += value*get_linear(v)`, `remove_variable(v)` -/
+def fixVariableMixin [Add R] [Mul R] [Zero R] (m : QMB R) (v : Nat) (a : R) : QMB R :=
+  let lin1 := (m.nbh v).foldl (fun l p => l.modify p.1 (· + a * p.2)) m.lin
+  let off1 := m.off + a * lin1.getD v 0
+  ({ m with lin := lin1, off := off1 } : QMB R).removeVariable v
+
+end QMB
+
+/-- a BQM / QM with its labels (and, for a QM, the per-variable vartype/bounds table) -/
+structure QmL (R : Type) where
+  qb : QMB R
+  info : List (VarInfo R)
+  labels : List Label
+
+namespace QmL
+
+/-- `fix_variable(v, value)` by label; `none` = `ValueError` (unknown variable), nothing changed -/
+def fixVariable [Add R] [Mul R] [Zero R] (m : QmL R) (v : Label) (a : R) : Option (QmL R) := do
+  let vi ← indexOf? m.labels v
+  pure { qb := m.qb.fixVariableMixin vi a, info := m.info.eraseIdx vi, labels := m.labels.eraseIdx vi }
+
+/-- `fix_variables(fixed)`: `for v, val in fixed: fix_variable(v, val)`; stops at the first error with what was done kept -/
+def fixVariables [Add R] [Mul R] [Zero R] (m : QmL R) (fixed : List (Label × R)) : QmL R × Bool :=
+  match fixed with
+  | [] => (m, true)
+  | (v, a) :: rest =>
+    match m.fixVariable v a with
+    | none => (m, false)
+    | some m' => fixVariables m' rest
+
+end QmL
+
 /-! ## generic Python path on the dict back-end (`views/quadratic.py`) -/
 
 namespace LBqm
